@@ -303,7 +303,7 @@ func (x *Exec) locLeaves(env *Env, e ast.Expr) []Term {
 }
 
 func (x *Exec) writable(addr Term, sort string) Term {
-	if x.modAll {
+	if x.modAll || (x.spec.ModGhosts && isGhostAddr(addr)) {
 		return "true"
 	}
 	alts := []Term{"(> " + tOrid(addr) + " " + x.allocEntry + ")"}
@@ -564,7 +564,7 @@ func (x *Exec) havocLoop(st *State, fr *Frame, li *loopInfo) {
 					}
 				case cs.ModAll:
 					all = true
-				case len(cs.Mod) > 0:
+				case len(cs.Mod) > 0 || cs.ModGhosts:
 					nonlocal = true
 				}
 			case *ssa.Send:
@@ -617,8 +617,12 @@ func (x *Exec) havocLoop(st *State, fr *Frame, li *loopInfo) {
 	entryMods := x.modAddrs
 	allocEntry := x.allocEntry
 	modAll := x.modAll
+	modGhosts := x.spec.ModGhosts
 	keepFor := func(hkey string) func(Term) Term {
 		sort := keySort(hkey)
+		if modGhosts && strings.HasPrefix(hkey, "g:") {
+			return func(Term) Term { return "false" }
+		}
 		return func(a Term) Term {
 			var stab []Term
 			for _, r := range stable {
@@ -722,7 +726,7 @@ func (x *Exec) enterBlock(st *State, b *ssa.BasicBlock, pred *ssa.BasicBlock) {
 		x.havocLoop(st, fr, li)
 		// per-iteration ghost counters (sends per stream, monitor writes) start at zero
 		for k := range st.ghostInt {
-			if strings.HasPrefix(k, "sent:") || strings.HasPrefix(k, "writes:") || strings.HasPrefix(k, "rtrue:") {
+			if strings.HasPrefix(k, "sent:") || strings.HasPrefix(k, "writes:") || strings.HasPrefix(k, "rtrue:") || strings.HasPrefix(k, "rerr:") {
 				st.ghostInt[k] = "0"
 			}
 		}
